@@ -80,6 +80,15 @@ def pool():
                        ("Schema('s', parent=Schema('d2'))", ("d2", "s")), ("Database('d')", ("d",)),
                        ("T('t', schema=('d', 's'))._schema", ("d", "s"))]:
         out.append((src, ("schema", chain)))
+    # names that contain the separator / quote characters: a dotted name is ONE name, not a path
+    out.append(("T('t', schema='d.s')", ("table", "t", ("d.s",), None, None)))
+    out.append(("T('s.t')", ("table", "s.t", (), None, None)))
+    out.append(("T('t', schema=('d', 's'))", ("table", "t", ("d", "s"), None, None)))
+    out.append(("T('t', schema='s\".\"x')", ("table", "t", ('s"."x',), None, None)))
+    out.append(("T('t', schema=('s', 'x'))", ("table", "t", ("s", "x"), None, None)))
+    out.append(("Schema('d.s')", ("schema", ("d.s",))))
+    out.append(("Schema('s\".\"x')", ("schema", ('s"."x',))))
+    out.append(("Schema('x', parent=Schema('s'))", ("schema", ("s", "x"))))
     for src, name in [("AliasedQuery('w')", "w"), ("AliasedQuery('w', Query.from_('t').select('a'))", "w"),
                       ("AliasedQuery('w2')", "w2"), ("AliasedQuery('t')", "t")]:
         out.append((src, ("aliased", name)))
